@@ -336,6 +336,38 @@ func genM1(r *rand.Rand, p Profile, id string) Case {
 	var ops [][]string
 	muts := 0
 	seq := 0
+	if p.W["rollback"] > 0 && p.W["save"] > 0 && p.Order == "" && len(g.pool) >= 3 && r.Intn(8) == 0 {
+		// scripted opening: a tiny committed tree; one removal alone in the working version (the
+		// sibling - a saved node - becomes the working root) is discarded, then committed
+		commit := func() {
+			ops = append(ops, []string{"save"})
+			nv := t.cur + 1
+			if t.cur == 0 && iv > 0 {
+				nv = iv
+			}
+			if !t.has(nv) {
+				t.versions = append(t.versions, nv)
+				t.cur = nv
+			}
+			t.dirty = false
+		}
+		perm := r.Perm(len(g.pool))
+		nk := 2 + r.Intn(2)
+		for i := 0; i < nk; i++ {
+			ops = append(ops, []string{"set", hx(g.pool[perm[i]]), hx([]byte(strconv.Itoa(i + 1)))})
+		}
+		commit()
+		victim := hx(g.pool[perm[r.Intn(nk)]])
+		ops = append(ops, []string{"rm", victim})
+		readsOn(r, g, "w", false, &ops)
+		ops = append(ops, []string{"rollback"})
+		readsOn(r, g, "w", false, &ops)
+		if r.Intn(2) == 0 {
+			ops = append(ops, []string{"rm", victim})
+			commit()
+			obs(r, g, t, false, &ops)
+		}
+	}
 	for len(ops) < nops*8 && muts < nops {
 		k := pickWeighted(r, p.W)
 		switch k {
